@@ -8,6 +8,7 @@ import (
 	"net/http"
 	"net/http/httptest"
 	"net/url"
+	"os"
 	"sort"
 	"strconv"
 	"strings"
@@ -20,8 +21,16 @@ import (
 
 type discard struct{}
 
-func (discard) Print(v ...interface{})                 {}
-func (discard) Printf(format string, v ...interface{}) {}
+func (discard) Print(v ...interface{}) {
+	if os.Getenv("VERIF_DEBUG") != "" {
+		fmt.Fprintln(os.Stderr, v...)
+	}
+}
+func (discard) Printf(format string, v ...interface{}) {
+	if os.Getenv("VERIF_DEBUG") != "" {
+		fmt.Fprintf(os.Stderr, format+"\n", v...)
+	}
+}
 
 var once sync.Once
 
